@@ -255,6 +255,9 @@ def consumers_rule(ctx):
     fc = ctx.view(c07.CHUNK)
     if fc is not None:
         c07.take_rule(dep(ctx, "C06", "C07"), fc)
+        fn_ = ctx.view(c07.COUNT)
+        if fn_ is not None:
+            c07.chunk_rule(dep(ctx, "C06", "C07"), fn_, fc)      # every chunk pass starts fresh; the run ends only at end of input
     for path, who in (("misc::minimisers::bin_sequences", "bin_sequences"), ("misc::minimisers::seq_to_min", "seq_to_min")):
         fv = ctx.view(path)
         if fv is not None:
